@@ -63,7 +63,8 @@ def cells(tier):
             for j, sb in enumerate(S):
                 fl = ("gg", "gm", "mg", "mm")[(i + j) % 4]
                 for law in BIN_LAWS:
-                    if tier == "quick" and d == 4 and law in ("sub_inverse", "distributive") and (i + j) % 2:
+                    # (a hash, not (i + j) % 2: the systems alternate t / tau, and parity would drop exactly the mixed pairs)
+                    if tier == "quick" and d == 4 and law in ("sub_inverse", "distributive") and zlib.crc32(f"{law}{i},{j}".encode()) % 2:
                         continue
                     add(law, d, sa, sb, fl)
                 if tier == "thorough" or d < 4 or (i + 2 * j) % 3 == 0:
@@ -150,6 +151,22 @@ def check_sub(cell, sub, ctx):
         env.eq_cart("(a+b)-b = a", env.cart(r2), ac, sca + scb, 16)
         r3 = rep(env.call("-", lambda: (A + B) - B), ac)
         env.eq_cart("(a+b)-b = a (operators)", env.cart(r3), ac, sca + scb, 16)
+        # the difference itself, in both orders (its time component has either sign)
+        dab, dba = R.subtract(ac, bc), R.subtract(bc, ac)
+        d1 = env.call("subtract", lambda: A.subtract(B))
+        if not mp_ and d >= 3 and obs.system_of(d1)[1] in ("theta", "eta") and R.rho2(dab) < (mpf("1e-6") * (sca + scb)) ** 2:
+            # float64: a difference that cancels onto the z axis is ill-conditioned in theta / eta storage
+            raise Skip("ill_conditioned_f64")
+        env.check_representable(d1, dab, "subtract")
+        env.eq_cart("a-b = a + (-1)b", env.cart(d1), dab, sca + scb, 16)
+        back = rep(env.call("add", lambda: d1.add(B)), ac)
+        env.eq_cart("(a-b)+b = a", env.cart(back), ac, sca + scb, 16)
+        d2 = env.call("subtract", lambda: B.subtract(A))
+        env.check_representable(d2, dba, "subtract")
+        env.eq_cart("b-a = -(a-b)", env.cart(d2), dba, sca + scb, 16)
+        d3 = env.call("-", lambda: A - B)
+        env.check_representable(d3, dab, "subtract")
+        env.eq_vec("a-b (operator) = a.subtract(b)", d3, d1, sca + scb, 8)
     elif law == "distributive":
         r1 = rep(env.call("add", lambda: A.add(B)), R.add(ac, bc))
         l = rep(env.call("scale", lambda: r1.scale(s)), R.scale(R.add(ac, bc), sm))
